@@ -139,6 +139,9 @@ def bounded(tier, seed):
              'Use {% x "foo...bar" %} and {{ a...b }} and {# wait...so #} here... ok.\n',
              "Well... see {% include 'a...b' %} and then... {{ c...d }} ok... fine {# e...f #} end...\n",
              "so... {{ x...y }}\nand... {% t 'p...q' %} more... text <!-- r...s --> last...\n",
+             # ... also when the tag spans a soft line break
+             'see {% include "partials/a...b.md"\nwith context %} then... ok and {{ range(1...5)\n | join }} end...\n',
+             "- item <!-- first...line\n  second...line --> text... done\n",
              '- item {% set r = 1...5 %} text...\n\n> {{ items[1...3] }} quoted... end\n', '{% note title="so...then" %}\nbody... text\n{% /note %}\n']
     for d in docs:
         o = dict(width=88, semantic=False)
